@@ -293,6 +293,11 @@ def mean_checks(ctx, tier, rng):
             impl = "((%s) (%s) (%s) %d)" % (" ".join(map(str, ent[0][3])), " ".join(G.hx(d) for d in (got_dims or [])),
                                             " ".join(map(str, sums)), den)
         cases.append((line, impl, case))
+        if target != "g":
+            # round 7: the call TEXT through the model's eval_function (parseCall + evalMean), not the list of axes
+            cases.append(("ssf-meaneval %s %s (%s) (%s) (%s)" % (G.hx(call), G.hx(target), " ".join(map(str, info["shape"])),
+                                                                " ".join(G.hx(d) for d in mdims), " ".join(map(str, info["data"]))),
+                          impl, case))
         # (d) the same call through the client's function proxy
         if rng.random() < (0.5 if tier == "quick" else 0.3) and target in ("a", "g"):
             try:
